@@ -45,6 +45,14 @@ def bounded_roundtrip(reg, tier, seed):
                 continue
             evals += 1
             inp = {"message": t.name, "counts": counts, "boundary": boundary, "flags": flags, "n_acks": len(acks or ()), "extra_len": len(extra)}
+            if rng.random() < 0.2:
+                # the serializer is long-lived (one per circuit): a message it rejected part-way (a block with an unset field) must
+                # leave nothing behind for the next one
+                try:
+                    from hippolyzer.lib.base.message.message import Message as _RM, Block as _RB
+                    ser.serialize(_RM("ChatFromViewer", _RB("AgentData", AgentID=None, SessionID=None), _RB("ChatData", Message="rejected")))
+                except Exception:  # noqa
+                    pass
             try:
                 data = ser.serialize(m)
             except Exception as e:  # noqa
@@ -313,6 +321,22 @@ def bounded_passthrough(reg, tier, seed):
                     fail(f"text field payload {p!r}: not byte-identical after {order}", {"payload": p.hex(), "order": order})
             except Exception as e:  # noqa
                 fail(f"text field payload {p!r}: {order} raised {e!r}", {"payload": p.hex(), "order": order})
+    # a BOOL travels as one byte; peers are not obliged to send 0 or 1 (the byte is patched on the wire, not produced by the library)
+    import uuid as _uuid
+    for bval in (2, 0x7f, 0x80, 0xff):
+        m = Message("SetAlwaysRun", Block("AgentData", AgentID=_uuid.UUID(int=1), SessionID=_uuid.UUID(int=2), AlwaysRun=1), packet_id=6)
+        data = bytearray(ser.serialize(m))
+        data[-1] = bval
+        data = bytes(data)
+        for order in ("never", "blocks", "eager"):
+            evals += 1
+            seen.add(("bool-byte", bval, order))
+            try:
+                out, _ = reencode(data, order)
+                if out != data:
+                    fail(f"BOOL field with wire byte {bval:#04x}: after {order} the datagram re-encodes with {out[-1]:#04x} in that field", {"datagram": data.hex(), "order": order})
+            except Exception as e:  # noqa
+                fail(f"BOOL field with wire byte {bval:#04x}: {order} raised {e!r}", {"datagram": data.hex(), "order": order})
     # a float field whose four bytes are a signalling NaN (any bit pattern is legal on the wire)
     for pattern in ("0100807f", "0100c07f", "000080ff", "ffffff7f", "010080ff"):
         m = Message("HealthMessage", Block("HealthData", Health=1.0), packet_id=5)
